@@ -112,6 +112,9 @@ class Report:
                            '' if concrete is not None else
                            ' no-failing-input-found'))
       for o, r in und:
+        if known('obligation', o.name + ' ' + o.label):
+          expected_fail += 1      # listed finding: expected not to be provable
+          continue
         undecided.append(o.name)
       vac = [u.contract.qualname for u in pr.units if getattr(u, 'vacuous',
                                                               False)]
@@ -163,6 +166,8 @@ class Report:
     if self.mon is not None:
       m = self.mon
       for v in m.violations:
+        if v.get('region') in getattr(mod, 'IGNORED_REGIONS', ()):
+          continue       # input outside the property's stated domain
         if known('monitor', v['what'], v.get('region')):
           continue
         path = common.write_replay(pid, 'monitor-' + v['what'], {
